@@ -58,6 +58,7 @@ type pWorld struct {
 	byN           int
 	// model of registry and counters for side-effect checks
 	topicCount map[string]int64 // acknowledged messages per topic (this incarnation)
+	lookupdList []string        // C10: the nsqlookupd list configured at run time
 	topics     map[string]bool
 	chans      map[string]bool
 	paused     map[string]bool
@@ -929,7 +930,8 @@ func genHTTPOps(rc *RunCtx, c PCfg) []Op {
 	var ops []Op
 	add := func(o Op) { o.Uid = len(ops); ops = append(ops, o) }
 	routes := []string{"/pub", "/mpub", "/topic/create", "/topic/delete", "/topic/empty", "/topic/pause", "/topic/unpause",
-		"/channel/create", "/channel/delete", "/channel/empty", "/channel/pause", "/channel/unpause", "/stats", "/ping", "/info", "/config/log_level", "/config/nope", "/nope", "/", "/debug/setblockrate", "/debug/pprof/cmdline"}
+		"/channel/create", "/channel/delete", "/channel/empty", "/channel/pause", "/channel/unpause", "/stats", "/ping", "/info", "/config/log_level", "/config/nope", "/nope", "/", "/debug/setblockrate", "/debug/pprof/cmdline",
+		"/config/nsqlookupd_tcp_addresses", "/config/nsqlookupd_tcp_addresses"}
 	for len(ops) < n {
 		switch r.Weighted([]int{50, 30, 3, 6, 5}) {
 		case 0:
@@ -994,6 +996,8 @@ func (w *pWorld) execHTTPReq(op Op) {
 	}
 	var body []byte
 	expect := []int{}
+	checkList := false
+	var newList []string
 	needPOST := route != "/stats" && route != "/ping" && route != "/info" && !strings.HasPrefix(route, "/config") && route != "/nope" && route != "/" && !strings.HasPrefix(route, "/debug")
 	exists := w.topics[topic]
 	chExists := w.chans[topic+"/"+ch]
@@ -1031,6 +1035,34 @@ func (w *pWorld) execHTTPReq(op Op) {
 			body = []byte("x")
 			expect = []int{400}
 		}
+	case route == "/config/nsqlookupd_tcp_addresses":
+		// the one list-valued option: a PUT replaces the list if its body is a JSON array of strings and is
+		// refused (400) otherwise - and a refused PUT changes nothing; GET shows the list in force
+		// (nothing listens on these addresses: the lookup loop's connection attempts are refused at once)
+		switch method {
+		case "GET":
+			expect = []int{200}
+			checkList = true
+		case "PUT":
+			lists := [][]string{{"127.0.0.1:4160"}, {"127.0.0.1:4160", "127.0.0.1:4170"}, {"127.0.0.1:4180", "127.0.0.1:4160", "127.0.0.1:4170"}, {}}
+			bad := []string{`["127.0.0.1:4199", 7]`, `["127.0.0.1:4198","127.0.0.1:4197",{}]`, `{"a":"127.0.0.1:4196"}`, `["127.0.0.1:4195"`, `"127.0.0.1:4194"`, `[[ "127.0.0.1:4193" ]]`, `["127.0.0.1:4192", true, "127.0.0.1:4191"]`}
+			if k := int(op.C) % (len(lists) + len(bad)); k < len(lists) {
+				body, _ = json.Marshal(lists[k])
+				expect = []int{200}
+				newList = lists[k]
+			} else {
+				body = []byte(bad[k-len(lists)])
+				expect = []int{400}
+			}
+			if int64(len(body)) > w.cfg.MaxMsgSize {
+				// the option's value is read with the message size limit
+				expect, newList = []int{413}, nil
+			}
+			checkList = true
+		default:
+			expect = []int{405}
+		}
+		w.rc.Probe("config_list_requests")
 	case route == "/config/log_level":
 		switch method {
 		case "GET":
@@ -1265,6 +1297,22 @@ func (w *pWorld) execHTTPReq(op Op) {
 		if json.Unmarshal(resp.Body, &e) != nil || e.Message == "" {
 			w.violate("C10", "malformed-error-body", "%s %s answered %d with body %q (expected JSON with message)", method, pathq, resp.Status, trunc(resp.Body, 80))
 		}
+	}
+	if checkList {
+		if newList != nil && resp.Status == 200 {
+			w.lookupdList = newList
+		}
+		got := resp
+		if method != "GET" {
+			got = httpDo(rc, "GET", w.http, route, nil, nil, nil, 60*time.Second)
+		}
+		var list []string
+		if got.Err != nil || got.Status != 200 || json.Unmarshal(got.Body, &list) != nil {
+			w.violate("C10", "config-unreadable", "GET %s answered %d %q err=%v", route, got.Status, trunc(got.Body, 80), got.Err)
+		} else if strings.Join(list, ",") != strings.Join(w.lookupdList, ",") {
+			w.violate("C10", "config-list-changed", "GET %s shows %q after %s %s (%d); the list in force is %q", route, list, method, trunc(body, 60), resp.Status, w.lookupdList)
+		}
+		rc.Probe("config_list_checked")
 	}
 	w.checkRegistryHTTP()
 }
